@@ -4,15 +4,15 @@ CONSTANT MaxVRF = 0
 CONSTANT MaxSlot = 1
 CONSTANT ForkSlots = {1}
 CONSTANT Windows = {0}
-CONSTANT DepthSet = "min"
+CONSTANT DepthSet = "deep"
 CONSTANT TrimShallow = TRUE
 CONSTANT Arity = 3
 CONSTANT SampleMod = 61
 CONSTANT TipKind = "ratio"
-CONSTANT RBlocks = {2, 3}
-CONSTANT SpanBases = {3, 1000000}
-CONSTANT SpanMults = {1}
-CONSTANT SpanOffsets = {-600, -200, 0, 1, 200}
+CONSTANT RBlocks = {1, 2}
+CONSTANT SpanBases = {1000000}
+CONSTANT SpanMults = {1, 2}
+CONSTANT SpanOffsets <- OffsetsSteps
 CONSTANT ResRoot = 31623
 INIT Init
 NEXT Next
